@@ -82,6 +82,7 @@ type Engine struct {
 	cellArr                  map[*Value]cellInfo
 	unwindIn                 map[*ssa.Function]int
 	curRange                 *ssa.Range
+	poolPrivate              map[*Value]Value
 	orderFree                map[*ssa.Range]bool
 }
 
@@ -1744,6 +1745,9 @@ func (e *Engine) convert(from, to types.Type, x Value) Value {
 				if et.Kind() == types.Uint8 {
 					bs := make([]Int, x.Len)
 					for i := 0; i < x.Len; i++ {
+						if e.ls.on && len(e.inPool) > 0 {
+							e.noteOwnership(&(*x.A)[x.Off+i], "read")
+						}
 						bs[i] = (*x.A)[x.Off+i].(Int)
 					}
 					return strFromBytes(bs)
